@@ -7,6 +7,14 @@ pub mod serde_json {
         pub uninterp spec fn as_i64_spec(&self) -> Option<i64>;
         #[verifier::external_body]
         pub fn as_i64(&self) -> (r: Option<i64>) ensures r == self.as_i64_spec() { unimplemented!() }
+        /// as_u64 is Some exactly when the number is a non-negative integer that fits in u64
+        pub uninterp spec fn as_u64_spec(&self) -> Option<u64>;
+        #[verifier::external_body]
+        pub fn as_u64(&self) -> (r: Option<u64>)
+            ensures r == self.as_u64_spec(),
+                (self.as_i64_spec() is Some && self.as_i64_spec()->0 >= 0) ==> r == Some(self.as_i64_spec()->0 as u64),
+                (self.as_i64_spec() is Some && self.as_i64_spec()->0 < 0) ==> r is None,
+        { unimplemented!() }
     }
     pub struct Opaque { pub _p: u8 }
     pub enum Value { Null, Bool(bool), Number(Number), String(String), Array(Opaque), Object(Opaque) }
